@@ -17,6 +17,8 @@ def hasattr_fn(name):
 
 
 callable_fn = Function("callable_", Val, BoolSort())
+hash_of = Function("hash_of", Val, z3.IntSort())
+strip_of = Function("strip_of", z3.StringSort(), z3.StringSort())
 
 
 class Star:
@@ -50,6 +52,9 @@ class CallMixin(ExecBase):
                 return s.call_value(p1, callee, args, kwargs, n)
             return s.seq(argnodes + kwnodes, p0, k)
 
+        if isinstance(f, ast.Name) and f.id in s.unit.options.get("typing_casts", ("cast",)) and len(n.args) == 2 \
+                and f.id not in p.env:
+            return s.ev(n.args[1], p)        # typing.cast(T, v) is v; the type expression is not executed
         if isinstance(f, ast.Attribute):
             src = ast.unparse(f)
             if src in s.unit.bindings and not _root_is_local(f, p):
@@ -299,6 +304,9 @@ class CallMixin(ExecBase):
         p.pc.append(obj_of_id(r) == v)      # id() is injective on live objects
         return [("ok", p, sv_int(r))]
 
+    def b_hash(s, p, args, kwargs, node):
+        return [("ok", p, sv_int(hash_of(args[0].t)))]      # not injective: equal objects share a hash
+
     def b_hasattr(s, p, args, kwargs, node):
         name = args[1].get("pyconst")
         if not isinstance(name, str):
@@ -530,6 +538,21 @@ class CallMixin(ExecBase):
         if not s.precise_strings:
             return [("ok", p, sv_bool(fresh("startswith", BoolSort())))]
         return [("ok", p, sv_bool(PrefixOf(s.to_string(p, x), s.to_string(p, recv))))]
+
+    def m_join(s, p, recv, args, kwargs, node):
+        if recv.get("ty") != "str":
+            return None
+        return [("ok", p, s.new_str(p))]        # content not modelled
+
+    def m_strip(s, p, recv, args, kwargs, node):
+        if recv.get("ty") != "str":
+            return None
+        return [("ok", p, s.new_str(p, strip_of(s.to_string(p, recv)) if s.precise_strings else None))]
+
+    def m_format(s, p, recv, args, kwargs, node):
+        if recv.get("ty") != "str":
+            return None
+        return [("ok", p, s.new_str(p))]
 
     def site_label(s, node):
         return s.unit.site_labels.get(node.lineno, f"L{_rel_line(s, node)}")
